@@ -138,8 +138,8 @@ def check(ctx, lib, roles, deciders, want=("capture", "verbose", "colour", "esca
                             n += 1
         ctx.floor(rid, "constructions of components with a line-break flag", n, 20)
     if "escape" in want or "surrogate" in want:
-        from .C01 import find_escaper
-        for S in find_escaper(lib):
+        from .C01 import find_escape_entry
+        for S in find_escape_entry(lib):
             bps = [i for i, ty in enumerate(S.sig_inputs) if ty == "bool"]
             for body, blk, term in guards.call_sites(lib, S.path):
                 if len(bps) >= 2:
